@@ -211,7 +211,50 @@ func Scan(w *load.World, c *core.Collector) {
 								row := fmt.Sprintf("%s Compare(key,bound) %s 0 %s", bound, op, ctx)
 								rows = append(rows, row)
 								okRow := false
+								// the form `c > 0 || (c == 0 && !inclusive)`: the strict comparison holds whatever
+								// the inclusiveness, the equality only counts together with a test of the flag
+								if ctx == "any" {
+									switch {
+									case bound == "end" && op == token.GTR, bound == "start" && op == token.LSS:
+										okRow = true
+									case op == token.EQL && inclusive != nil && bo.Referrers() != nil:
+										for _, r := range *bo.Referrers() {
+											ifi, ok := r.(*ssa.If)
+											if !ok {
+												continue
+											}
+											nb := ifi.Block().Succs[0]
+											if ni, ok := nb.Instrs[len(nb.Instrs)-1].(*ssa.If); ok {
+												c2 := ni.Cond
+												if u, ok := c2.(*ssa.UnOp); ok && u.Op == token.NOT {
+													c2 = u.X
+												}
+												if c2 == ssa.Value(inclusive) {
+													okRow = true
+												}
+											}
+											// `return c == 0 && !inclusive`: on the equal edge the answer is the negated flag
+											for _, cand := range append([]*ssa.BasicBlock{nb}, nb.Succs...) {
+												for _, ci := range cand.Instrs {
+													var vals []ssa.Value
+													switch y := ci.(type) {
+													case *ssa.Return:
+														vals = y.Results
+													case *ssa.Phi:
+														vals = y.Edges
+													}
+													for _, v := range vals {
+														if u, ok := v.(*ssa.UnOp); ok && u.Op == token.NOT && u.X == ssa.Value(inclusive) {
+															okRow = true
+														}
+													}
+												}
+											}
+										}
+									}
+								}
 								switch {
+								case okRow:
 								case bound == "end" && ctx == "inclusive" && op == token.GTR,
 									bound == "end" && ctx == "exclusive" && op == token.GEQ,
 									bound == "start" && ctx == "inclusive" && op == token.LSS,
